@@ -393,16 +393,7 @@ func RunRetentionCase(seed int64, workDir string) *HistResult {
 		sys2.Close()
 	}
 	// let running jobs finish so that goroutines end
-	for i := 0; i < 50; i++ {
-		w := sys.Gates.Waiting()
-		if len(w) == 0 {
-			break
-		}
-		for _, k := range w {
-			sys.Gates.Release(k[0], k[1], core.Outcome{Kind: core.OutOK})
-		}
-		time.Sleep(300 * time.Microsecond)
-	}
+	DrainAll(sys)
 	res.Events = sys.Log.Len()
 	if len(res.Findings) > 0 {
 		res.Sample = map[string]any{"seed": seed, "loadedJobs": len(data.Jobs), "rounds": rounds}
